@@ -16,6 +16,7 @@ import TomlVerif.Driver.C08
 import TomlVerif.Driver.C07
 import TomlVerif.Driver.C07Typed
 import TomlVerif.Driver.C15Loc
+import TomlVerif.Driver.C14Sp
 
 open TomlVerif
 
@@ -29,6 +30,7 @@ def dispatch (mode : String) (line : String) : String :=
   | "stack" => Driver.stackLine line
   | "c15" => Driver.c15 line
   | "c15d" => Driver.C15Loc.c15d line
+  | "c14s" => Driver.C14Sp.c14s line
   | "c04" => Driver.c04 line
   | "c18" => Driver.c18 line
   | "c20" => Driver.c20 line
